@@ -47,6 +47,7 @@ class Sc:
     eids: frozenset = E
     assoc: frozenset = E
     marks: frozenset = E
+    gone: frozenset = E  # iterations whose element the value stemmed from before it was put into a collection that outlives them
     none: bool = False  # may be None
     agg: bool = False  # aggregate of a collection (", ".join(xs), len(xs)): its truthiness is an emptiness test
 
@@ -220,8 +221,24 @@ class Interp:
                 if not inner.scope <= container.scope:
                     inner.scope = inner.scope & container.scope
 
+    def escape(self, container, v: frozenset) -> frozenset:
+        """Values put into a collection that outlives a running iteration are, when read back, no longer *the current* element of it."""
+        out_of = frozenset(self.active) - container.born
+        if not out_of:
+            return v
+
+        def mark(sh):
+            if isinstance(sh, Sc) and ((sh.eids | sh.assoc) & out_of) and not out_of <= sh.gone:
+                return replace(sh, gone=sh.gone | ((sh.eids | sh.assoc) & out_of))
+            if isinstance(sh, Tup):
+                return Tup(tuple(frozenset(mark(x) for x in it) for it in sh.items), sh.site)
+            return sh
+
+        return frozenset(mark(sh) for sh in v)
+
     def add(self, ref: Ref, elems: frozenset) -> None:
         c = self.cells[ref.key]
+        elems = self.escape(c, elems)
         new = elems - c.elem
         if new:
             self.adopt(c, new)
@@ -257,6 +274,7 @@ class Interp:
 
     def store_entry(self, ref: Ref, k: frozenset, v: frozenset) -> None:
         c = self.cells[ref.key]
+        k, v = self.escape(c, k), self.escape(c, v)
         if (k, v) not in c.entries:
             self.adopt(c, v)
             c.entries.add((k, v))
@@ -397,6 +415,7 @@ class Interp:
         eids: set = set()
         assoc: set = set()
         marks: set = set()
+        gone: set | None = None
         groups: list[list[Sc]] = []
         for p in parts:
             w = self.has_top(p)
@@ -410,11 +429,12 @@ class Interp:
                 eids |= s.eids
                 assoc |= s.assoc
                 marks |= s.marks
+                gone = set(s.gone) if gone is None else gone & s.gone
         if check:
             m = self.link_mark(groups, fr, node)
             if m is not None:
                 marks.add(m)
-        return V(Sc(frozenset(roles), frozenset(srcs), frozenset(eids), frozenset(assoc), frozenset(marks), none, agg))
+        return V(Sc(frozenset(roles), frozenset(srcs), frozenset(eids), frozenset(assoc), frozenset(marks), frozenset(gone or ()), none, agg))
 
     def link_mark(self, groups: list[list[Sc]], fr: Frame | None, node: ast.AST | None):
         """A ("mix", ...) mark when subject content and object content of *different* violation pairs are combined."""
@@ -428,8 +448,8 @@ class Interp:
                     for b in groups[j]:
                         if b.roles != {"O"} or not b.srcs:
                             continue
-                        la, lb = self.live(a.eids), self.live(b.eids)
-                        if la & lb or self.live(b.assoc) & la or self.live(a.assoc) & lb or self.live(a.assoc) & self.live(b.assoc):
+                        la, lb = self.live(a.eids - a.gone), self.live(b.eids - b.gone)
+                        if la & lb or self.live(b.assoc - b.gone) & la or self.live(a.assoc - a.gone) & lb or self.live(a.assoc - a.gone) & self.live(b.assoc - b.gone):
                             continue
                         return ("mix", self.site(fr, node), self.where(fr, node) if fr is not None and node is not None else "")
         return None
@@ -638,7 +658,7 @@ class Interp:
             wc: set = set()
             try:
                 kind = self.cond_kind.get((id(s.test), fr.inv), "neutral")
-                ce = frozenset(x for sc in self.scalars(tv) for x in self.live(sc.eids) if x not in self.pseudo)
+                ce = frozenset(x for sc in self.scalars(tv) for x in self.live(sc.eids - sc.gone) if x not in self.pseudo)
                 self.collectors.append((self.uncertain, wa))
                 fr.ctrl.append((s.test, True, kind, ce))
                 try:
@@ -763,7 +783,7 @@ class Interp:
             for alt in alts:
                 extra = []
                 if ex is not None:
-                    grouped = any(self.live(sc.assoc) for sc in self.scalars(alt))
+                    grouped = any(self.live(sc.assoc - sc.gone) for sc in self.scalars(alt))
                     extra = [("part", self.site(fr, ex), f"the loop `for {norm(s.target)} in {norm(s.iter, 60)}` is left early by `{norm(ex, 40)}`", grouped)]
                 cur = self.retag(alt, e, (id(s), fr.inv, "it"), extra)
                 benv = dict(head)
@@ -924,7 +944,9 @@ class Interp:
                         k = (id(e), fr.inv, "auto", sh.key)
                         inner = {self.coll(k, self.site(fr, e)) if kind == "coll" else self.dict_(k, self.site(fr, e))}
                         for r in inner:
+                            # the per-key collection of a defaultdict belongs to the dictionary
                             self.cells[r.key].scope = self.cells[r.key].scope & self.cell(sh).scope
+                            self.cells[r.key].born = self.cells[r.key].born & self.cell(sh).born
                     for r in inner:
                         self.store_entry(sh, key, V(r))
                     out |= inner
@@ -1025,8 +1047,8 @@ class Interp:
             return E
         finally:
             self.in_cond -= 1
-        own = frozenset(x for sc in self.scalars(added) for x in self.live(sc.eids))
-        both = frozenset(x for sc in self.scalars(tv) for x in self.live(sc.eids))
+        own = frozenset(x for sc in self.scalars(added) for x in self.live(sc.eids - sc.gone))
+        both = frozenset(x for sc in self.scalars(tv) for x in self.live(sc.eids - sc.gone))
         return both - own if (both & own) else E
 
     def select(self, v: frozenset, node: ast.AST, env: dict, fr: Frame) -> frozenset:
@@ -1047,7 +1069,7 @@ class Interp:
             reasons = reasons + g
         if not reasons:
             return
-        grouped = any(self.live(sc.assoc) for sc in self.scalars(added))
+        grouped = any(self.live(sc.assoc - sc.gone) for sc in self.scalars(added))
         for r in refs:
             if isinstance(r, Ref) and r.kind == "coll":
                 born = self.cells[r.key].scope
@@ -1222,7 +1244,7 @@ class Interp:
                 left_colls = frozenset(sh for sh in a if isinstance(sh, Ref) and sh.kind == "coll")
                 self.add(r, self.elems(left_colls))
                 if isinstance(op, (ast.Sub, ast.BitAnd)):
-                    grouped = any(self.live(sc.assoc) for sc in self.scalars(self.elems(left_colls)))
+                    grouped = any(self.live(sc.assoc - sc.gone) for sc in self.scalars(self.elems(left_colls)))
                     self.add_part(r, [("part", self.site(fr, node), f"elements are removed by `{norm(node, 60)}`", grouped)])
             out.add(r)
         rest_a = frozenset(sh for sh in a if not (isinstance(sh, Ref) and sh.kind == "coll"))
@@ -1282,7 +1304,7 @@ class Interp:
                             break
                         if k == "data":
                             own = {self.eids.get((id(e), i, fr.inv)) for i in range(gi + 1)}
-                            outer = frozenset(x for sc in self.scalars(tv) for x in self.live(sc.eids) if x not in own)
+                            outer = frozenset(x for sc in self.scalars(tv) for x in self.live(sc.eids - sc.gone) if x not in own)
                             if outer and isinstance(c, ast.Compare) and len(c.ops) == 1 and isinstance(c.ops[0], (ast.Eq, ast.Is)):
                                 # selection relative to the current element of an enclosing iteration (`for s in subjects: [o for s2, o in pairs if s2 == s]`):
                                 # the selected elements are grouped under that element
@@ -1291,7 +1313,7 @@ class Interp:
                                 continue
                             if self.is_dedupe_test(c, [res], cur, env2, fr):
                                 continue
-                            grouped = any(self.live(sc.assoc) for sc in self.scalars(cur))
+                            grouped = any(self.live(sc.assoc - sc.gone) for sc in self.scalars(cur))
                             ms.append(("part", self.site(fr, c), f"only if `{norm(c, 70)}`", grouped))
                     if not dead:
                         gen(gi + 1, env2, ms)
@@ -1312,7 +1334,7 @@ class Interp:
                     el = self.elems(V(sh))
                     self.add(r, el)
                     if not full:
-                        grouped = any(self.live(sc.assoc) for sc in self.scalars(el))
+                        grouped = any(self.live(sc.assoc - sc.gone) for sc in self.scalars(el))
                         self.add_part(r, [("part", self.site(fr, e), f"only the slice `{norm(e, 60)}` is used", grouped)])
                     out.add(r)
                 elif isinstance(sh, Tup):
@@ -1355,7 +1377,7 @@ class Interp:
         return frozenset(out)
 
     def dict_lookup(self, ref: Ref, key: frozenset, node: ast.AST, fr: Frame) -> frozenset:
-        lk = frozenset().union(*[self.live(s.eids) for s in self.scalars(key)]) if key else E
+        lk = frozenset().union(*[self.live(s.eids - s.gone) for s in self.scalars(key)]) if key else E
         out: set = set()
         for _k, v in list(self.cell(ref).entries):
             if lk:
@@ -1590,6 +1612,8 @@ class Interp:
         if a.kwarg is not None:
             env[a.kwarg.arg] = V(Opaque("kwargs"))
         guards = [(r[0], r[1], r[3]) for r in self.data_conds(node, caller_env, fr)] if (fr is not None and caller_env is not None) else []
+        if not isinstance(fi.node, ast.Lambda) and any(isinstance(x, (ast.Yield, ast.YieldFrom)) for x in own_nodes(fi.node)):
+            callee_fr.yields = self.coll((id(fi.node), inv, "gen"), self.site(callee_fr, fi.node))
         self.stack.append(fi.fq)
         self.guards.append(guards)
         try:
@@ -1723,7 +1747,7 @@ class Interp:
         if name in ("difference", "intersection", "symmetric_difference"):
             r = self.coll((id(call), fr.inv, "copy"), self.site(fr, call), self.elems(V(sh)))
             if name != "symmetric_difference":
-                grouped = any(self.live(sc.assoc) for sc in self.scalars(self.elems(V(sh))))
+                grouped = any(self.live(sc.assoc - sc.gone) for sc in self.scalars(self.elems(V(sh))))
                 self.add_part(r, [("part", self.site(fr, call), f"elements are removed by `{norm(call, 60)}`", grouped)])
             return V(r)
         if name in ("index", "count", "issubset", "issuperset", "isdisjoint", "__len__", "__contains__"):
@@ -1860,7 +1884,7 @@ class Interp:
             return V(r)
         if name == "filter" and len(args) >= 2:
             r = self.coll(key, site, self.elems(args[1]))
-            grouped = any(self.live(sc.assoc) for sc in self.scalars(self.elems(args[1])))
+            grouped = any(self.live(sc.assoc - sc.gone) for sc in self.scalars(self.elems(args[1])))
             self.add_part(r, [("part", site, f"`{norm(call, 60)}` keeps only some elements", grouped)])
             return V(r)
         if name == "zip" and len(args) == 1 and len(args[0]) == 1 and isinstance(next(iter(args[0])), Tup) and next(iter(args[0])).site == "unzip":
